@@ -240,7 +240,7 @@ fn run(env: &Env, k: u64, d: &mut Delta) {
         d.tally("exhaustive_small_scope_cases", 1);
         return;
     }
-    let n = env.tier.pick(420, 1250);
+    let n = env.tier.pick3(420, 1250, 5);
     for i in 0..n {
         let chain_len = rng.gen_range(1..=4);
         let mut mtus: Vec<u16> = vec![];
@@ -271,6 +271,7 @@ fn run(env: &Env, k: u64, d: &mut Delta) {
             _ => rng.gen_range(0..=6000),
         }
         .min(65515);
+        let payload_len = crate::cap(payload_len);
         let df = rng.chance(1, 8);
         let mf = rng.chance(1, 4);
         // a datagram that is itself a non-final fragment carries whole 8-byte blocks
